@@ -14,7 +14,7 @@ def ranks_jobs(harness, cfg, tier, ranks=(1, 2, 3, 4), extra_args=(), shards_tho
 
 
 CHECKS["C01"] = dict(
-    technique="explicit-state BFS over view states (bounded depth), every transition executed on the real typed view, lock-step affine reference model, all index tuples per state",
+    technique="explicit-state BFS over view states (bounded depth; states keyed by model state + real-layout fingerprint), every transition executed on the real typed view through its lvalue, rvalue and const overloads, lock-step affine reference model, all index tuples per state",
     title="view algebra",
     level="model_checking",
     engine="E1",
@@ -35,7 +35,7 @@ CHECKS["C01"] = dict(
 )
 
 CHECKS["C02"] = dict(
-    technique="explicit-state BFS over view states; exhaustive positions x offsets per state for every iterator family; address-level oracle",
+    technique="explicit-state BFS over view states; exhaustive positions x offsets x routes per state for every iterator family; address-level oracle",
     title="iterator / elements() random-access laws",
     level="model_checking",
     engine="E1",
@@ -133,7 +133,7 @@ HIST_ASSUME = ["reference model engine/hist_model.hpp (value = extents + row-maj
                "std::move(a).reextent(x) is modelled as NOT preserving elements when extents change (array.hpp, test/reextent.cpp say so)"]
 
 CHECKS["C04"] = dict(
-    technique="explicit-state BFS over operation histories of a pool of owning arrays (replay on fresh objects, forked batches), lock-step value model + registry/ledger monitors",
+    technique="explicit-state BFS over operation histories of a pool of owning arrays (replay on fresh objects, forked batches, hidden state in the key, enumerated allocator address policy), lock-step value model + registry/ledger monitors; exhaustive (destination, source) extents-pair grid x all value-semantic forms",
     title="value semantics of owning arrays", level="model_checking", engine="E2",
     claim=("Every history of construct/copy/move/assign/swap/decay/element-write/reextent operations up to depth 3 (thorough 4-5) over the alphabet is executed on real arrays (D=1..4, tracked and trivial element "
            "types) and compared slot by slot with the value model after every step, plus storage disjointness, self-assignment and move/swap no-copy/no-allocation counters. Independence of copies is decided by "
@@ -141,7 +141,7 @@ CHECKS["C04"] = dict(
     jobs=lambda tier: hist_jobs("C04", tier) + recycle_jobs("C04", tier) + pair_jobs("C04", tier), rule=HIST_RULE + RECYCLE_RULE + PAIR_RULE + " Reported for C04: violations of transitions whose last operation is a construct/copy/move/assign/swap/decay/element-write letter.", assumptions=HIST_ASSUME,
 )
 CHECKS["C06"] = dict(
-    technique="explicit-state BFS over operation histories; index-space intersection reference model for every (old,new) extents pair reachable",
+    technique="explicit-state BFS over operation histories + exhaustive grid of every (old,new) index-extension pair per dimensionality x reextent forms x element kinds; index-space intersection reference model",
     title="reextent / clear / reshape / assign", level="model_checking", engine="E2",
     claim=("reextent(x), reextent(x,v), rvalue reextent, reshape, assign(first,last), initializer-list assignment, clear and ={} are applied from EVERY state reachable within the depth bound (so for all "
            "(old,new) extents pairs of the shape menu, interleaved with all other mutators) and compared with the index-space intersection model; reextent to the current extents must keep data_elements()."),
@@ -241,7 +241,7 @@ CHECKS["C17"] = dict(
 )
 
 CHECKS["C07"] = dict(
-    technique="exhaustive enumeration of value pairs x representation pairs x constness x operators against nested-sequence semantics",
+    technique="exhaustive enumeration of value pairs x representation pairs (incl. every axis permutation of the storage) x constness x operators against nested-sequence semantics; mirror laws on partially ordered elements; non-bitwise element equality",
     title="equality and ordering", level="exploration", engine="E4",
     claim=("Complete enumeration: every ordered pair of logical values over a small alphabet (D=0: {0,1,2}; D=1: all vectors of length 0..3 over {0,1,2}; D=2..4: all arrays of a shape menu over {0,1}, including "
            "pairs of different extents with equal flat contents and empty operands; D=4: all placements of one and of two non-trivial axes) x 20 representation pairs (owning array, static_array, array_ref, view of rotated storage, padded sub-block, blocks padded in one dimension only, array<short>, view "
@@ -255,7 +255,7 @@ CHECKS["C07"] = dict(
 )
 
 CHECKS["C16"] = dict(
-    technique="compile-time explicit-state exploration of access paths (expression types x const-taint; template memoisation = visited set) + exhaustive compile probes of whole-view mutators",
+    technique="compile-time explicit-state exploration of access paths (expression types x const-taint; template memoisation = visited set) + exhaustive compile probes of whole-view mutators, of a proxy-reference pointer type and of reference-returning projections",
     title="const-ness propagation", level="model_checking", engine="E3",
     claim=("Explicit-state exploration of the graph of access paths at compile time: a state is a real C++ expression type (with value category) plus a const-taint bit, a transition applies one of 48 accessors in "
            "unevaluated context, template instantiation memoisation is the visited set; from 10 roots per rank (array, array const, static_array, array_ref, views held by auto&&, auto& and auto const&) to depth 3 "
